@@ -344,6 +344,16 @@ class ExprEval:
             raise Unsupported(f"class attribute {ci.name}.{name}")
         if isinstance(base, tuple) and name in ("count", "index"):
             raise Unsupported("tuple method")
+        if isinstance(base, Opaque) and base.tag == "super":
+            obj, ci = base.payload
+            mro = self.repo.mro(obj.cls)
+            after = False
+            for c in mro:
+                if after and name in c.methods:
+                    return FuncRef("method_exact", c.methods[name], self_obj=obj, name=f"{c.name}.{name}")
+                if c.name == ci.name:
+                    after = True
+            return FuncRef("external", "sktime_base." + name, name="super()." + name)
         if isinstance(base, Opaque):
             return Opaque("attr", (base, name))
         if isinstance(base, OptV):
